@@ -149,6 +149,9 @@ func writeCollection(ext extractor, elementCodec Codec, size int, version primit
 					// we are returning an error
 					return nil, collectionElementNil()
 				}
+				if len(encodedElem) > math.MaxUint16 {
+					return nil, collectionElementTooLarge(len(encodedElem), math.MaxUint16)
+				}
 				_ = primitive.WriteShortBytes(encodedElem, buf)
 			}
 		}
